@@ -455,9 +455,13 @@ func (st *Runtime) executeList(list *ListNode) (returnValue reflect.Value) {
 			}
 
 			if isTrue(st.evalPrimaryExpressionGroup(node.Expression)) {
-				returnValue = st.executeList(node.List)
+				if v := st.executeList(node.List); v.IsValid() {
+					returnValue = v
+				}
 			} else if node.ElseList != nil {
-				returnValue = st.executeList(node.ElseList)
+				if v := st.executeList(node.ElseList); v.IsValid() {
+					returnValue = v
+				}
 			}
 			if isLet {
 				st.releaseScope()
@@ -499,9 +503,12 @@ func (st *Runtime) executeList(list *ListNode) (returnValue reflect.Value) {
 				}
 			}
 
+			// a value returned from inside the loop body ends the loop; a value returned by an
+			// earlier statement of this list must neither be lost nor keep the loop from running
+			var loopValue reflect.Value
 			indexValue, rangeValue, end := ranger.Range()
 			if !end {
-				for !end && !returnValue.IsValid() {
+				for !end && !loopValue.IsValid() {
 					if isSet {
 						if isLet {
 							if keyVarSlot >= 0 {
@@ -522,11 +529,14 @@ func (st *Runtime) executeList(list *ListNode) (returnValue reflect.Value) {
 					if valVarSlot < 0 {
 						st.context = rangeValue
 					}
-					returnValue = st.executeList(node.List)
+					loopValue = st.executeList(node.List)
 					indexValue, rangeValue, end = ranger.Range()
 				}
 			} else if node.ElseList != nil {
-				returnValue = st.executeList(node.ElseList)
+				loopValue = st.executeList(node.ElseList)
+			}
+			if loopValue.IsValid() {
+				returnValue = loopValue
 			}
 			cleanup()
 			st.context = context
@@ -535,7 +545,9 @@ func (st *Runtime) executeList(list *ListNode) (returnValue reflect.Value) {
 			}
 		case NodeTry:
 			node := node.(*TryNode)
-			returnValue = st.executeTry(node)
+			if v := st.executeTry(node); v.IsValid() {
+				returnValue = v
+			}
 		case NodeYield:
 			node := node.(*YieldNode)
 			if node.IsContent {
@@ -558,7 +570,9 @@ func (st *Runtime) executeList(list *ListNode) (returnValue reflect.Value) {
 			st.executeYieldBlock(node, block, block.Parameters, block.Parameters, block.Expression, block.Content)
 		case NodeInclude:
 			node := node.(*IncludeNode)
-			returnValue = st.executeInclude(node)
+			if v := st.executeInclude(node); v.IsValid() {
+				returnValue = v
+			}
 		case NodeReturn:
 			node := node.(*ReturnNode)
 			returnValue = st.evalPrimaryExpressionGroup(node.Value)
